@@ -10,4 +10,8 @@ go vet ./... >/dev/null
 for d in props/*/; do
   go test -c -o /dev/null "./$d" >/dev/null
 done
+# self-test of the reference library (a wrong reference is the main false-alarm risk), also under the
+# go1.26.8 race build used by the concurrency checks (this warms that toolchain's build cache)
+go test -count=1 ./subjectlib/vref/ -rapid.checks=1500 -rapid.nofailfile >/dev/null
+GOTOOLCHAIN=local go1.26.8 test -race -count=1 ./subjectlib/vref/ -rapid.checks=200 -rapid.nofailfile >/dev/null
 echo "setup ok"
